@@ -107,7 +107,12 @@ def d2(ck: Check) -> None:
         probs.append("steps are not processed in a loop over the succession")
     elif A:
         lp = loops[0]
-        ts = text(lp.target)
+        it, tg = lp.iter, lp.target
+        if isinstance(it, ast.Call) and callee_name(it) == "enumerate" and it.args and isinstance(tg, ast.Tuple) and len(tg.elts) == 2:
+            it, tg = it.args[0], tg.elts[1]
+        ts = text(tg)
+        if text(it) != f.params()[1]:
+            probs.append(f"the loop ranges over `{text(it)}`, not over the succession")
         if text(c.args[1]) != ts:
             probs.append("find_drivers is not called for the current step of the succession")
         ups = []
@@ -139,7 +144,15 @@ def d2(ck: Check) -> None:
     # result: one entry per step, in order
     probs = []
     par = fm.f.parents.get(c)
-    if not (isinstance(par, ast.Call) and isinstance(par.func, ast.Attribute) and par.func.attr == "append"):
+    appended = isinstance(par, ast.Call) and isinstance(par.func, ast.Attribute) and par.func.attr == "append"
+    st = f.stmt_of(c)
+    if not appended and isinstance(st, ast.Assign) and st.value is c and isinstance(st.targets[0], ast.Name) and loops:
+        v = st.targets[0].id
+        apps = {fm.cfgn(x).id for x in ast.walk(loops[0]) if isinstance(x, ast.Call) and isinstance(x.func, ast.Attribute)
+                and x.func.attr == "append" and x.args and text(x.args[0]) == v}
+        from .c13 import _within as _w
+        appended = bool(apps) and fm.cfg.loop_header[loops[0]].id not in _w(fm, loops[0], cn, apps)
+    if not appended:
         probs.append("the drivers of a step are not appended to the result list")
     ck.ob("D2", fm, f.node, not probs, "; ".join(probs) if probs else "one control entry per succession step, in order", key="result list")
 
